@@ -18,7 +18,7 @@ FIELDS = {
     "C12": [],
     "C06": ["tags", "upd", "rst", "add", "all", "next"],
     "C09": ["queue", "merge", "tag", "convert", "unm", "toconv", "nrec"],
-    "C10": ["idx", "files", "next", "pcaps"],
+    "C10": ["idx", "files", "next"],  # (the builder's list of known captures is C08's business: empty captures are not listed)
     "C13": ["files", "idx"],
     "C16": ["cached", "toconv", "convs", "tags"],
 }
@@ -321,7 +321,7 @@ def classify(prop, shrunk_ops, complaints, sc, known):
     return None
 
 
-def stage(rep, prop, tier, seed, gen_args=(), nsc=None, nops=None, label="scheduled"):
+def stage(rep, prop, tier, seed, gen_args=(), nsc=None, nops=None, label="scheduled", fields=None):
     """run the scenario harness as an additional stage of another property's check (C11: tag graph under
     scheduled job completions; C12: crash/restart experiments): oracle complaints of `prop` become
     violations of `rep`, model/implementation differences on FIELDS[prop] are searched / reported."""
@@ -331,7 +331,8 @@ def stage(rep, prop, tier, seed, gen_args=(), nsc=None, nops=None, label="schedu
         rep.replay({"broken": "correspondence %s (%s stage): scenario harness does not build against /repo's working tree" % (prop, label),
                     "log": blog[-3000:]}, no_input=True)
         return
-    fields = FIELDS[prop]
+    if fields is None:
+        fields = FIELDS[prop]
     if nsc is None:
         nsc, nops = (100, 60) if not thorough else (1200, 80)
     scenarios = []
